@@ -88,7 +88,8 @@ func cdsNeedsPush(req *model.PushRequest, proxy *model.Proxy) (*model.PushReques
 			headlessOnly = false
 		}
 
-		if proxy.Type == model.Router {
+		// East-west gateways (waypoint type) build clusters for the services their Gateway servers reference.
+		if proxy.Type == model.Router || (config.Kind == kind.Gateway && proxy.IsAmbientEastWestGateway()) {
 			if config.Kind == kind.Gateway {
 				// Do the check outside of the loop since its slow; just trigger we need it
 				checkGateway = true
